@@ -145,6 +145,29 @@ def marker_forming(ctx, do_model=True):
             one(ctx, "minimize-collapse-brace", cfg, kind, f, lambda k, c, fn=fn: fn(c), do_model, "marker-forming")
 
 
+def collapse_deterministic(ctx, do_model=True):
+    """brace collapsing under CONSISTENT tests on inputs with identical atoms inside a brace pair: the collapsed text and
+    the single deletions repeat contents that were tried before, so the de-duplication answers instead of the test"""
+    import hashlib
+    datas = [b"function f() {\n\n\n}\n", b"a {\n\n\n\n}\nb {\n \n}\n", b"{\n\n}\n{\n\n}\n", b"x{ \n \n }y{ \n }\n"]
+    import re as _re
+    oracles = [("blank-between-braces", lambda c: b"{\n\n" in c or b"{ \n" in c or b"{\n \n" in c),
+               ("blank-line-inside-pair", lambda c: _re.search(rb"\{\n\n+\}", c) is not None),
+               ("ws-inside-pair", lambda c: _re.search(rb"\{\s\s+\}", c) is not None),
+               ("has-brace-pair", lambda c: c.count(b"{") == c.count(b"}") and b"{" in c),
+               ("parity", lambda c: len(c) % 2 == 0),
+               ("hash", lambda c: hashlib.blake2b(c, digest_size=1).digest()[0] < 150),
+               ("collapsed-only", lambda c: b"{ }" in c or c.count(b"\n") >= 3)]
+    for data in datas:
+        for kind in ("line", "char", "symbol"):
+            res = loaders.real_load(kind, data)
+            f = strat.fields(res[1])
+            for cfg in (dict(), dict(rep="always"), dict(rep="never")):
+                for label, fn in oracles:
+                    if fn(data):
+                        one(ctx, "minimize-collapse-brace", cfg, kind, f, lambda k, c, fn=fn: fn(c), do_model, "collapse-det:" + label)
+
+
 def trees(ctx, limit, do_model=True):
     done_all = True
     for name in REMOVAL:
@@ -189,6 +212,7 @@ def known_finding_cases(ctx):
 def search(ctx):
     collapse_runs(ctx, do_model=False)
     marker_forming(ctx, do_model=False)
+    collapse_deterministic(ctx, do_model=False)
     grid(ctx, True, do_model=False)
     trees(ctx, 3000, do_model=False)
 
@@ -199,6 +223,7 @@ def run(ctx) -> int:
     grid(ctx, ctx.thorough)
     collapse_runs(ctx)
     marker_forming(ctx)
+    collapse_deterministic(ctx)
     if trees(ctx, 6000 if ctx.thorough else 250):
         ctx.exhaustive.append("every verdict sequence of the four removal strategies for n <= 4 atoms (repeat last/always)")
     hill_climb(ctx, 400 if ctx.thorough else 60)
